@@ -21,6 +21,7 @@ func init() {
 }
 
 func runC03(ctx *Ctx) {
+	defer runScale(ctx, "decode", map[string]string{"nontrivial": "1"}, func(c *Case) error { return checkC03(ctx, c) })
 	n := ctx.N(4000, 40000)
 	for _, t := range ctx.types() {
 		t := t
@@ -77,6 +78,7 @@ func implDecode(t *model.Type, b []byte) (p proto.Message, err error) {
 }
 
 func checkC03(ctx *Ctx, c *Case) error {
+	scaleBytes(c)
 	t, err := mustType(c.Type)
 	if err != nil {
 		return err
